@@ -20,6 +20,9 @@ VALUES = {
     "other": "another value",
     "large": "x" * 3000,          # fits a 4 KiB cache alone
     "oversize": b"\x01" * 6000,   # larger than a 4 KiB cache
+    # larger than a 4 KiB cache AND weak-referenceable AND held by the caller for the whole run (this table): the cache may
+    # keep serving it through its weak-reference table while it is not resident
+    "held-array": __import__("numpy").full(6000, 1, dtype="int8"),
     "none": None,
 }
 
@@ -122,7 +125,22 @@ def apply_op(backend, op, kept=None):
 
 
 def values_equal(a, b):
-    return type(a) is type(b) and a == b
+    if type(a) is not type(b):
+        return False
+    if hasattr(a, "dtype") and hasattr(a, "shape"):
+        import numpy as np
+
+        return a.dtype == b.dtype and np.array_equal(a, b)
+    return a == b
+
+
+def check_is_memoized_only(backend, model, tag=""):
+    """The least intrusive observation: is_memoized per call (it never inserts into the memory cache, unlike get_mementos /
+    read_result, whose cache fills can mask what an operation left behind)."""
+    hist = list(model.history)
+    for ci in range(len(CALLS)):
+        present = ci in model.entries
+        check(tag + "is_memoized", bool(backend.is_memoized(FWAS[ci].fn_reference, FWAS[ci].arg_hash)) == present, (ci, present, hist))
 
 
 def check_queries(backend, model, tag=""):
